@@ -208,6 +208,14 @@ def replay_scaling(name, seed=1):
             sets.append({n: r.get(n, plist[n].default) for n in names})
         except Exception:
             pass
+    # parameters whose default is zero switch a term off: also evaluate with the term switched on
+    for n in names:
+        p_ = plist[n]
+        if p_.default == 0 and p_.type != "orientation" and not p_.is_control and not p_.choices:
+            for v in (4.0, 0.3):
+                if p_.limits[0] <= v <= p_.limits[1]:
+                    sets.append(dict(sets[0], **{n: v}))
+                    break
     ctl = [p.name for p in info.parameters.kernel_parameters if p.is_control]
     dev = {"intensity": 0.0, "volume": 0.0, "radius": 0.0}
     worst_case = {}
